@@ -543,7 +543,8 @@ func c17Tags(in *c17In) (tags []string, nontrivial bool) {
 				add("kf:C17-for-parent-context")
 				nontrivial = true
 			}
-			if canBeEmpty(x.Args[0]) || canBeEmpty(x.Args[2]) {
+			// the builder stays empty only while every element written so far is empty: the defect needs an empty first element
+			if canBeEmpty(x.Args[0]) {
 				add("kf:C17-for-leading-empty")
 			}
 		case "key":
@@ -660,6 +661,11 @@ var spaceLits = []string{" ", "\t", "\u00a0", "\u2003", "a b", " a", "", "\u3000
 type gen struct {
 	r  *Rng
 	in *c17In
+	// no array helper nested inside the sub-expressions of @for: on the pinned tree (defect
+	// C17-for-parent-context) the stale parent of @for's pooled sub-context can be handed to such a
+	// nested helper, whose sub-context then points back at it; the key lookup recurses for ever and the
+	// Go runtime aborts the whole process with a stack overflow, which recover() cannot catch
+	noNested bool
 }
 
 func newGen(r *Rng) *gen {
@@ -737,7 +743,11 @@ func (g *gen) sub(depth int, inCat bool) *Expr {
 	}
 	e := func() *Expr { return g.sub(depth-1, false) }
 	var x *Expr
-	switch r.Intn(9) {
+	k := r.Intn(9)
+	if k == 7 && g.noNested {
+		k = 8
+	}
+	switch k {
 	case 0:
 		x = fn("eq", e(), e())
 	case 1:
@@ -890,7 +900,9 @@ func (g *gen) root(kind string) *Expr {
 		default:
 			start = g.sub(1, false)
 			cond = fn("not", fn("eq", arg(1), lit(fmt.Sprint(lim))))
+			g.noNested = true
 			incr = g.sub(2, false)
+			g.noNested = false
 		}
 		return fn("@for", start, cond, incr)
 	case "arr":
@@ -992,6 +1004,12 @@ func c17Fixed(tier string) (ins []*c17In, heavy []bool) {
 	in.W = 1
 	ins = append(ins, in)
 	heavy = append(heavy, true)
+	// ... and one that stops after exactly 1,000,000 elements (the largest list the pinned cap allows;
+	// with another cap the model follows the regenerated constant)
+	in = mk(fn("@len", fn("@for", lit("x"), fn("not", fn("eq", arg(1), lit("1000000"))), arg(0))))
+	in.W = 1
+	ins = append(ins, in)
+	heavy = append(heavy, true)
 	return
 }
 
@@ -1005,6 +1023,28 @@ func c17Gen(r *Rng, n int, tier string) []Case {
 		}
 		ins = append(ins, g.in)
 		heavy = append(heavy, false)
+	}
+	// the heavy cases (about 10 s of vm_compute each) go to different shards
+	{
+		var hs, rest []*c17In
+		for i, in := range ins {
+			if heavy[i] {
+				hs = append(hs, in)
+			} else {
+				rest = append(rest, in)
+			}
+		}
+		ins, heavy = nil, nil
+		for i, in := range rest {
+			ins, heavy = append(ins, in), append(heavy, false)
+			if (i+1)%100 == 60 && len(hs) > 0 {
+				ins, heavy = append(ins, hs[0]), append(heavy, true)
+				hs = hs[1:]
+			}
+		}
+		for _, in := range hs {
+			ins, heavy = append(ins, in), append(heavy, true)
+		}
 	}
 	cps := make([]*compiled, len(ins))
 	outs := make([]c17Out, len(ins))
